@@ -99,6 +99,26 @@ def err_exact(kind, o, t):
     return 200 * delta / (abs(fo) + abs(ft))
 
 
+def team_output(members):
+    """documented output of a team: running mean of the members' defined outputs (binary64), None when none is defined"""
+    avg, count = 0.0, 0.0
+    for t in members:
+        v = tok_value(t)
+        if v is None:
+            continue
+        count += 1.0
+        avg += (v - avg) / count
+    return avg if count > 0.0 else None
+
+
+def doc_outs(res):
+    """program outputs the fitness is documented against: for a team, computed here from the members' outputs
+    (NOT taken from the implementation's team lambda); for an individual, what the interpreter returned"""
+    if res.get("mouts") is not None:
+        return ["v" if o is None else D(o) for o in (team_output(m) for m in res["mouts"])]
+    return res["outs"]
+
+
 def judge(case, res):
     """the property, evaluated on the implementation's outputs.
     returns list of (key, what)"""
@@ -153,7 +173,7 @@ def judge(case, res):
     def num(tok, cast):        # a string counts as the double std::stod makes of it
         return "d:" + (NAN_HEX if cast == "T" else cast) if tok.startswith("s:") else tok
     casts = res.get("casts") or [("-", "-")] * n
-    outs = [tok_value(num(t, casts[i][0])) for i, t in enumerate(res["outs"])]
+    outs = [tok_value(num(t, casts[i][0])) for i, t in enumerate(doc_outs(res))]
     before = [int(r[3]) for r in rows]
     if base in ERR_KINDS:
         tg = [tok_value(num(r[2], casts[i][1])) for i, r in enumerate(rows)]
@@ -356,6 +376,53 @@ def gen_case_err(rng, thorough):
     return {"kind": kind, "classes": 0, "prog": prog, "rows": rows}
 
 
+def gen_team_err(rng, thorough):
+    """a team<i_mep> of 2..4 members (identity on column 1 / column 2 / constants) under an error evaluator"""
+    kind = rng.choice(ERR_KINDS)
+    r = rng.random()
+    n = 1 if r < 0.15 else (rng.randint(2, 8) if r < 0.9 else rng.randint(100, 110))
+    members = ["X", "Y"]
+    extra = rng.random()
+    if extra < 0.3:
+        members.append(rng.choice(["X", "Y"]))
+    elif extra < 0.5:
+        members.append("K:" + hx(rng.choice([0.0, 1.0, -2.5, 1e308, 1.5e308, rng.gauss(0, 10)])))
+    if len(members) == 3 and rng.random() < 0.4:
+        members.append(rng.choice(["X", "Y"]))
+    rng.shuffle(members)
+    rows = []
+    for _ in range(n):
+        q = rng.random()
+        if q < 0.30:
+            # huge same-sign member outputs whose sum overflows but whose mean is finite
+            sg = rng.choice([1.0, -1.0])
+            a, b = rng.choice([(1.5e308, 1.5e308), (1.7e308, 0.3e308), (1.0e308, 1.2e308), (DBL_MAX, DBL_MAX),
+                               (rng.uniform(0.9e308, 1.79e308), rng.uniform(0.9e308, 1.79e308))])
+            x1, x2 = D(sg * a), D(sg * b)
+        elif q < 0.45:
+            x1, x2 = rng.choice([("v", D(rng.gauss(0, 5))), (D(rng.gauss(0, 5)), "v"), ("v", "v")])
+        elif q < 0.55:
+            x1, x2 = "i:%d" % rng.randint(-5, 5), D(rng.gauss(0, 5))
+        else:
+            c = rng.gauss(0, 20)
+            x1, x2 = D(c + rng.gauss(0, 2)), D(c + rng.gauss(0, 2))
+        vals = {"X": x1, "Y": x2}
+        doc = team_output([vals.get(m, "d:" + m[2:] if m.startswith("K:") else m) for m in members])
+        t = rng.random()
+        if doc is None:
+            tgt = D(rng.gauss(0, 5))
+        elif t < 0.6:
+            tgt = D(doc)                      # the team reproduces the target exactly
+        elif t < 0.75:
+            tgt = D(doc + rng.choice([1, -1]) * rng.choice([2.0 ** -51, 2.0 ** -52, 2.0 ** -50]) * max(1.0, abs(doc)))
+        else:
+            tgt = D(doc + rng.gauss(0, 3))
+        rows.append([x1, x2, tgt, gen_difficulty(rng)])
+    if n >= 100 and rng.random() < 0.5:
+        kind += ".fast"
+    return {"kind": kind, "classes": 0, "prog": "T:" + "+".join(members), "rows": rows}
+
+
 def gen_case_cls(rng, thorough):
     kind = rng.choice(CLS_KINDS)
     classes = 2 if kind == "binary" else rng.randint(2, 5)
@@ -435,6 +502,13 @@ def fixed_cases():
         out.append({"kind": "ga", "value": hx(v)})
         for p in (0.0, 2.0, -1.0, 1e300):
             out.append({"kind": "con", "value": hx(v), "penalty": hx(p)})
+    for k in ERR_KINDS:
+        out.append({"kind": k, "classes": 0, "prog": "T:X+Y",
+                    "rows": [[D(1.5e308), D(1.5e308), D(1.5e308), 0], [D(1.7e308), D(0.3e308), D(1.0e308), 3],
+                             [D(-1.5e308), D(-1.5e308), D(-1.5e308), 0], [D(1.0), D(3.0), D(2.0), 0]]})
+        out.append({"kind": k, "classes": 0, "prog": "T:X+Y", "rows": [["v", "v", D(1.0), 2], [D(4.0), "v", D(4.0), 0], ["v", D(5.0), D(4.0), 0]]})
+        out.append({"kind": k, "classes": 0, "prog": "T:X+Y+K:" + hx(1.5e308) + "+X",
+                    "rows": [[D(1.5e308), D(1.5e308), D(1.5e308), 0], [D(1.5e308), "v", D(1.5e308), 1]]})
     out.append({"kind": "tfixed", "ids": [4]})
     out.append({"kind": "tdist", "ids": [7]})
     out.append({"kind": "tdist", "ids": [5, 3, 5, 1, 3, 3, 9, 1, 5]})
@@ -467,7 +541,7 @@ def harness_line(c):
 def parse_harness(line):
     if line is None or not (line.startswith("fit=") or line.startswith("THROW ")):
         return None
-    res = {"fit": [], "outs": [], "diff": [], "frame": 1, "tags": [], "thrown": line.startswith("THROW "), "tags_thrown": False, "casts": []}
+    res = {"fit": [], "outs": [], "diff": [], "frame": 1, "tags": [], "thrown": line.startswith("THROW "), "tags_thrown": False, "casts": [], "mouts": None}
     for w in line.split():
         k, _, v = w.partition("=")
         if k == "fit":
@@ -478,6 +552,8 @@ def parse_harness(line):
             res["diff"] = [int(x) for x in v.split(",")] if v else []
         elif k == "frame":
             res["frame"] = int(v)
+        elif k == "mouts":
+            res["mouts"] = [x.split("/") for x in v.split(",")] if v else []
         elif k == "casts":
             res["casts"] = [tuple(x.split("/")) for x in v.split(",")] if v else []
         elif k == "tags":
@@ -498,7 +574,10 @@ def model_line(c, res):
 
         def st(tok, cast):      # a string cell travels with what std::stod answered on it
             return tok + ":" + cast if tok.startswith("s:") and cast != "-" else tok
-        toks.append("%s %s %s %d %s %s" % (st(r[0], oc), r[1], st(r[2], tc), r[3], st(res["outs"][i], oc), tg))
+        ov = "/".join(res["mouts"][i]) if res.get("mouts") is not None else st(res["outs"][i], oc)
+        if res.get("mouts") is not None and len(res["mouts"][i]) == 1:
+            ov += "/v"          # keep the team syntax for a one member team
+        toks.append("%s %s %s %d %s %s" % (st(r[0], oc), r[1], st(r[2], tc), r[3], ov, tg))
     return "%s %d %d %s" % (c["kind"], c["classes"], len(c["rows"]), " ".join(toks))
 
 
@@ -508,7 +587,7 @@ def nontrivial(c, res):
     n = len(c["rows"])
     if n == 1:
         return True
-    if res.get("thrown") or any(t.startswith("s:") for t in res["outs"]):
+    if res.get("thrown") or any(t.startswith("s:") for t in res["outs"]) or res.get("mouts") is not None:
         return True
     outs = [tok_value(t) for t in res["outs"]]
     if any(o is None for o in outs):
@@ -603,6 +682,8 @@ def run(ck):
             cases.append(gen_case_err(rng, ck.thorough))
         for _ in range(ncls):
             cases.append(gen_case_cls(rng, ck.thorough))
+        for _ in range(12000 if ck.thorough else 500):
+            cases.append(gen_team_err(rng, ck.thorough))
         for _ in range(2000 if ck.thorough else 60):
             cases.append({"kind": "tdist", "ids": [rng.randint(0, 12) for _ in range(rng.randint(1, 30))]})
         # permutations of one dataset: order sensitivity of the running mean is reported
